@@ -4046,13 +4046,20 @@ impl CanonicalizeContext {
 	
 		let mut parsed_mrow = top_of_stack.mrow;
 		assert_eq!( name(&top_of_stack.mrow), "mrow");
+		let mut child_id = None;
 		if parsed_mrow.children().len() == 1 && is_ok_to_merge_child {
 			parsed_mrow = top_of_stack.remove_last_operand_from_mrow();
 			// was synthesized, but is really the original top level mrow
+			// the child takes the place of the mrow: if it has an id (e.g, from the author), that id must stay on it
+			child_id = parsed_mrow.attribute_value("id").map(|id| id.to_string());
 		}
 	
 		parsed_mrow.remove_attribute(CHANGED_ATTR);
-		return Ok( add_attrs(parsed_mrow, &saved_mrow_attrs) );
+		let parsed_mrow = add_attrs(parsed_mrow, &saved_mrow_attrs);
+		if let Some(id) = child_id {
+			parsed_mrow.set_attribute_value("id", &id);
+		}
+		return Ok( parsed_mrow );
 	}	
 }
 
